@@ -71,7 +71,7 @@ def run(prog):
                          cfg.dominates(p.bb, a[0]) and a[0] != ins[0].bb and
                          not any(q is not p and cfg.dominates(p.bb, q.bb) and cfg.dominates(q.bb, a[0]) for q in pushes)]
                 if not ptrs:
-                    errs.append("no pointer is built for the new row")
+                    errs.append("?no pointer is built for the new row")
                 for t in ptrs:
                     if strip(t[4][0]) != idx:
                         errs.append("the returned pointer carries index %s but the visited table stores %s"
